@@ -14,6 +14,8 @@ git log --format='%h %s' | grep ' fix:' | while read h rest; do
   [ -z "$id" ] && continue
   git diff $h $h~1 -- src > /var/tmp/revert-$h.diff
   # the D6 repair: two hook commits right after it moved the WaitDone emit into the new Drop impl -- revert the three together
+  # c4be5f8: a later hook commit renamed the yield point next to it; the reverse patch was ported by hand
+  [ "$h" = "c4be5f8" ] && cp /verif/tools/revert-c4be5f8.ported.diff /var/tmp/revert-$h.diff
   [ "$h" = "c7106a3" ] && git diff 437375c c7106a3~1 -- src > /var/tmp/revert-$h.diff
   echo "== revert $h ($rest) -> $id"
   /verif/tools/try_mutant.sh /var/tmp/revert-$h.diff $id 2>&1 | grep -E "rc=|detail|does not apply|repo dirty" | cut -c1-260 | head -3
